@@ -61,12 +61,18 @@ class BufferReader {
     const std::size_t length = end - begin;
     const std::size_t length_bytes = length * element_size;
 
+    if (length_bytes > (size_ - index_))
+      return ErrorStatus::ReadLimitReached;
+
     std::memcpy(begin, &buffer_[index_], length_bytes);
     index_ += length_bytes;
     return {};
   }
 
   Status<void> Skip(std::size_t padding_bytes) {
+    if (padding_bytes > (size_ - index_))
+      return ErrorStatus::ReadLimitReached;
+
     index_ += padding_bytes;
     return {};
   }
